@@ -51,7 +51,7 @@ def gen(seed, tier="quick"):
             rp = []
             if ti + 1 < n_topics and topo.random() < 0.35:
                 rp = [topics[j]["name"] for j in topo.sample(range(ti + 1, n_topics), topo.randint(1, min(2, n_topics - ti - 1)))]
-            reg.append({"id": sid, "topic": tp["name"], "type": tp["type"], "republish": rp})
+            reg.append({"id": sid, "topic": tp["name"], "type": tp["type"], "republish": rp, "declares_base": topo.random() < 0.15})
             sid += 1
     # subscribers on topics nobody publishes
     for _ in range(topo.choice([0, 0, 1, 2])):
@@ -82,7 +82,11 @@ def gen(seed, tier="quick"):
         it = iter(subs)
         setup = [({"op": "mk_sub", "id": next(it)["id"]} if m["op"] == "mk_sub" else m) for m in mixed]
         for _ in range(topo.choice([0, 1, 2, 4])):
-            setup.insert(topo.randint(0, len(setup)), {"op": "early_pub", "topic": topo.choice(topics)["name"]})
+            tp = topo.choice(topics)
+            item = {"op": "early_pub", "topic": tp["name"]}
+            if topo.random() < 0.3:
+                item["wrong"] = topo.choice([m for m in MSG_TYPES if m != tp["type"]])  # must be rejected even if nobody listens yet
+            setup.insert(topo.randint(0, len(setup)), item)
     else:
         setup = setup + [{"op": "mk_sub", "id": sp["id"]} for sp in subs]
 
@@ -348,7 +352,8 @@ def run(scn):
             self.spec = spec
             self.sid = spec["id"]
             self.msgs = {t: getattr(msgs, tname[t])() for t in spec["republish"] if t in tname}
-            self.sub = uros.Subscriber(core, spec["topic"], getattr(msgs, spec["type"]), self.cb)
+            # a subscriber may declare the base message type (the bus never looks at it)
+            self.sub = uros.Subscriber(core, spec["topic"], msgs.Msg if spec.get("declares_base") else getattr(msgs, spec["type"]), self.cb)
 
         def cb(self, msg):
             depth[0] += 1
@@ -421,6 +426,23 @@ def run(scn):
             model.add_sub(spec["id"], spec["topic"], [t for t in spec["republish"] if t in tname])
             if spec["topic"] not in tname:
                 fault("subscriber_without_publisher")
+        elif item["op"] == "early_pub" and item.get("wrong"):
+            tn = item["topic"]
+            if tn in pubs:
+                fault("wrong_type_publish")
+                mw = getattr(msgs, item["wrong"])()
+                serial_of[id(mw)] = -2
+                del delivered[:]
+                rec.rec(core.now, "pub_wrong", tn)
+                try:
+                    pubs[tn].publish(mw)
+                    violation("wrong_type_accepted", "Publisher.publish", "set-up phase: a %s message was accepted on topic %s of type %s (%d subscribers so far)" % (
+                        item["wrong"], tn, tname[tn], len(model.subs.get(tn, []))), topic=tn)
+                except Exception as e:
+                    counters["rejected"] += 1
+                    rec.rec(core.now, "rejected", type(e).__name__)
+                if delivered:
+                    violation("wrong_type_delivered", "Publisher.publish", "a rejected message reached %s" % (delivered[:5],), topic=tn)
         elif item["op"] == "early_pub":
             tn = item["topic"]
             if tn in pubs:
